@@ -154,8 +154,10 @@ func (g *c01Gen) lvalue(d int, pure bool) pr {
 	case 0, 1, 2:
 		g.hit("lvalue:var")
 		v := g.scalarVar()
-		if g.exact && (v == "NF" || v == "NR") {
-			// the Lean record model is list based: keep NF small in the exact subset (it is set by `NF = <0..5>` statements)
+		if v == "NF" || v == "NR" {
+			// random programs never compute NF (a loop doing `NF *= 3` builds a million fields and takes seconds, and the Lean
+			// record model is list based); NF is set by `NF = <0..5>` statements, and the directed lvalue family covers every
+			// assignment form on NF and NR
 			v = []string{"g0", "g1", "g2"}[g.n(3)]
 		}
 		return same(v)
@@ -492,7 +494,7 @@ func (g *c01Gen) stmt(d int, inLoop bool) st {
 		k = g.n(9)
 	}
 	switch {
-	case k < 6 && g.exact && g.coin(1, 12):
+	case k < 6 && g.coin(1, 12):
 		g.hit("stmt:NF=const")
 		return st{same("NF = " + fmt.Sprint(g.n(6)) + "\n"), false}
 	case k < 6: // assignment-like statement
